@@ -413,7 +413,9 @@ func c02ResolverText() *core.Space {
 		name string
 		pc   parse.Config
 	}{{"parse.DefaultConfig", parse.DefaultConfig}, {"parse.NoopConfig", parse.NoopConfig}, {"parse.EnvConfig", parse.EnvConfig}}
-	radices := []int{len(names), len(templates), len(cfgs), 3}
+	// the name handed to the resolver is the name as written, whatever the separator is
+	seps := []string{"", ".", "/", "->"} // (":" is the operator character of the expressions)
+	radices := []int{len(names), len(templates), len(cfgs), 3, len(seps)}
 	return &core.Space{
 		Name: "resolver-values-inside-text",
 		Size: product(radices...),
@@ -425,16 +427,25 @@ func c02ResolverText() *core.Space {
 		Exec: func(i int) core.Result {
 			d := mixedRadix(i, radices...)
 			n, t := names[d[0]], templates[d[1]]
-			text := t.pre + "${" + n + t.op + "}" + t.post
+			sep := seps[d[4]]
+			full := n
+			if sep != "" {
+				full = "secrets" + sep + "db" + sep + n // a name of several parts
+			}
+			text := t.pre + "${" + full + t.op + "}" + t.post
 			want := t.pre + vals[n] + t.post
 			if t.op == ":+set" {
 				want = t.pre + "set" + t.post
 			}
 			var res core.Result
 			pi := core.Guard(func() {
-				opts := []ucfg.Option{ucfg.PathSep("."), ucfg.VarExp, ucfg.Resolve(func(name string) (string, parse.Config, error) {
-					if v, ok := vals[name]; ok {
-						return v, cfgs[d[2]].pc, nil
+				ps := "."
+				if sep != "" {
+					ps = sep
+				}
+				opts := []ucfg.Option{ucfg.PathSep(ps), ucfg.VarExp, ucfg.Resolve(func(name string) (string, parse.Config, error) {
+					if name == full {
+						return vals[n], cfgs[d[2]].pc, nil
 					}
 					return "", cfgs[d[2]].pc, ucfg.ErrMissing
 				})}
@@ -448,7 +459,7 @@ func c02ResolverText() *core.Space {
 				case 0:
 					got, err = cfg.String("k", -1, opts...)
 				case 1:
-					got, err = cfg.String("s.k", -1, opts...)
+					got, err = cfg.String("s"+ps+"k", -1, opts...)
 				case 2:
 					var st struct{ L []string }
 					if err = cfg.Unpack(&st, opts...); err == nil {
